@@ -198,6 +198,25 @@ GUARDS = [
     (['C09'], 'session_keeps_totals_across_files', 'src/session.cc', r'std::size_t\s+session_t::read_data\s*\(', [
         'xact_count += journal->read(parsing_context, HANDLER(hashes_).hash_type, false);',
         'journal->clear_xdata();']),
+    (['C09'], 'deferred_posting_flag', 'src/textual.cc', r'post_t\s*\*\s*instance_t::parse_post\s*\(', [
+        "else if (*p == '<' && *(e - 1) == '>') { post->add_flags(POST_DEFERRED); p++; e--; }"]),
+    (['C09'], 'deferred_postings_are_held', 'src/xact.cc', r'bool\s+xact_base_t::finalize\s*\(\s*\)\s*\{', [
+        'if (post->has_flags(POST_DEFERRED)) { if (!post->amount.is_null()) post->account->add_deferred_post(id(), post); } else { post->account->add_post(post); }']),
+    (['C09'], 'deferred_postings_released_at_end_of_file', 'src/textual.cc', r'std::size_t\s+journal_t::read_textual\s*\(', [
+        'instance.parse();', 'master->apply_deferred_posts();']),
+    (['C09'], 'deferred_postings_released_in_full', 'src/account.cc', r'void\s+account_t::apply_deferred_posts\s*\(\s*\)\s*\{', [
+        'if (deferred_posts) { foreach (deferred_posts_map_t::value_type& pair, *deferred_posts) { foreach (post_t * post, pair.second) post->account->add_post(post); } deferred_posts = none; }',
+        'foreach (const accounts_map::value_type& pair, accounts) pair.second->apply_deferred_posts();']),
+    (['C09'], 'apply_account_pushes_child_of_top', 'src/textual.cc', r'void\s+instance_t::apply_account_directive\s*\(', [
+        'if (account_t * acct = top_account()->find_account(line)) apply_stack.push_front(application_t("account", acct));']),
+    (['C09'], 'transaction_read_below_top_account', 'src/textual.cc', r'xact_t\s*\*\s*instance_t::xact_directive\s*\(', [
+        'if (xact_t * xact = parse_xact(line, len, top_account(), previous_xact)) {']),
+    (['C09'], 'posting_read_below_given_account', 'src/textual.cc', r'xact_t\s*\*\s*instance_t::parse_xact\s*\(', [
+        'parse_post(p, len - (p - line), account, xact.get())) {']),
+    (['C09'], 'posting_account_registered_below_master', 'src/textual.cc', r'post_t\s*\*\s*instance_t::parse_post\s*\(', [
+        'post->account = context.journal->register_account(name, post.get(), account);']),
+    (['C09'], 'register_account_finds_below_master', 'src/journal.cc', r'account_t\s*\*\s*journal_t::register_account\s*\(', [
+        'account_t * result = expand_aliases(name);', 'if (! result) result = master_account->find_account(name);']),
 ]
 
 
